@@ -5,6 +5,7 @@ package main
 
 import (
 	"fmt"
+	"github.com/internetarchive/Zeno/internal/pkg/postprocessor/domainscrawl"
 	"net/url"
 	"sort"
 	"strings"
@@ -37,8 +38,10 @@ func classNames() (n []string) {
 }
 
 // (hops of the document, --max-hops): outlinks are allowed iff hops < max-hops.
-var hopCfg = [][2]int{{0, 1}, {1, 1}, {0, 0}}
-var hopNames = []string{"hops0-max1", "hops1-max1", "hops0-max0"}
+// The third figure switches --domains-crawl on (with the planted hosts as its domains): a link into a crawled
+// domain is queued whatever the hop count of the document.
+var hopCfg = [][3]int{{0, 1, 0}, {1, 1, 0}, {0, 0, 0}, {0, 0, 1}, {2, 2, 1}}
+var hopNames = []string{"hops0-max1", "hops1-max1", "hops0-max0", "hops0-max0-domains-crawl", "hops2-max2-domains-crawl"}
 
 // ---------------------------------------------------------------- oracle
 
@@ -52,17 +55,47 @@ var hopNames = []string{"hops0-max1", "hops1-max1", "hops0-max0"}
 //
 // "is" means: Zeno's own next step (NormalizeURL) turns the extracted string into the planted URL.
 func judgeDoc(c *Case) (fs []failure, links int, trace any) {
-	r := fetch(c.URL, c.Hops, c.MaxHops, response{Header: map[string]string{"Content-Type": c.CType}, Body: c.Body, Direct: c.Direct})
+	fs, links, trace = judgeDocFrom(c, "")
+	if c.Kind == "xml" || c.Kind == "rss" || c.Kind == "sitemap" {
+		// the same document from an object store: what it says does not depend on who serves it
+		f2, l2, t2 := judgeDocFrom(c, "AmazonS3")
+		base := map[string]bool{}
+		for _, f := range fs {
+			base[f.Type+"|"+f.Class] = true
+		}
+		var only []failure // what fails from the object store and not otherwise
+		for _, f := range f2 {
+			if !base[f.Type+"|"+f.Class] {
+				f.Class += " server=AmazonS3"
+				only = append(only, f)
+			}
+		}
+		if len(fs) == 0 && len(only) > 0 {
+			trace = t2
+		}
+		fs, links = append(fs, only...), links+l2
+	}
+	return
+}
+
+func judgeDocFrom(c *Case, server string) (fs []failure, links int, trace any) {
+	h := map[string]string{"Content-Type": c.CType}
+	if server != "" {
+		h["Server"] = server
+	}
+	r := fetch(c.URL, c.Hops, c.MaxHops, response{Header: h, Body: c.Body, Direct: c.Direct, DC: c.DC})
 	links = len(r.Children) + len(r.Outlinks)
 	if r.Panic != "" {
 		return []failure{{Type: "panic", Detail: r.Panic}}, links, r
 	}
-	allowed := c.Hops < c.MaxHops
-	if !allowed && len(r.Outlinks) > 0 {
+	below := c.Hops < c.MaxHops
+	if !below && !c.DC && len(r.Outlinks) > 0 {
 		fs = append(fs, failure{Type: "outlink-beyond-hop-limit", Detail: fmt.Sprintf("hops=%d max-hops=%d but outlinks %q", c.Hops, c.MaxHops, r.Outlinks)})
 	}
 	children, outlinks := canonSet(r.Children, r.Parent), canonSet(r.Outlinks, nil)
 	for _, p := range c.Planted {
+		// "when the hop limit allows": below the limit, or into a crawled domain (Zeno's own matcher decides which)
+		allowed := below || (c.DC && domainscrawl.Match(p.Abs))
 		child, out := children[mustCanon(p.Abs)], outlinks[mustCanon(p.Abs)]
 		bad := ""
 		switch {
@@ -270,7 +303,7 @@ func (s *jsonSpace) Build(d []int) *Case {
 	j := &jser{rot: d[1], pretty: d[2] == 1, esc: d[3]}
 	body := j.ser(s.shapes[d[0]], "")
 	return &Case{Kind: "json", URL: docURL, CType: "application/json", Body: body,
-		Hops: hopCfg[s.hops[d[4]]][0], MaxHops: hopCfg[s.hops[d[4]]][1], Planted: j.planted}
+		Hops: hopCfg[s.hops[d[4]]][0], MaxHops: hopCfg[s.hops[d[4]]][1], DC: hopCfg[s.hops[d[4]]][2] == 1, Planted: j.planted}
 }
 
 // ---------------------------------------------------------------- XML, RSS, sitemap
@@ -378,7 +411,7 @@ func (s *xmlSpace) Build(d []int) *Case {
 	b.WriteString(i1 + "</" + pfx + k.wrap + ">" + nl)
 	b.WriteString(cl + nl)
 	hc := hopCfg[d[7]]
-	return &Case{Kind: k.kind, URL: docURL, CType: k.ctypes[d[5]], Body: b.String(), Hops: hc[0], MaxHops: hc[1], Planted: planted}
+	return &Case{Kind: k.kind, URL: docURL, CType: k.ctypes[d[5]], Body: b.String(), Hops: hc[0], MaxHops: hc[1], DC: hc[2] == 1, Planted: planted}
 }
 
 // ---------------------------------------------------------------- M3U8
@@ -444,7 +477,7 @@ func (s *mediaSpace) Build(d []int) *Case {
 	}
 	hc := hopCfg[d[6]]
 	return &Case{Kind: "m3u8", URL: docURL, CType: m3uCTypes[d[4]], Body: strings.Join(l, []string{"\n", "\r\n"}[d[3]]) + []string{"\n", "\r\n"}[d[3]],
-		Hops: hc[0], MaxHops: hc[1], Planted: planted, Direct: d[7] == 0}
+		Hops: hc[0], MaxHops: hc[1], DC: hc[2] == 1, Planted: planted, Direct: d[7] == 0}
 }
 
 // Master playlists: every sequence of 1..maxLen entries from V (EXT-X-STREAM-INF + URI line),
@@ -483,6 +516,7 @@ func newMasterSpace(maxLen int) *masterSpace {
 		handover,
 	}}
 }
+
 // masterBsOwned: every B (a rendition of the group that only repeated-variant entries name) is
 // followed by such an entry, i.e. a W that has a variant before it.
 func masterBsOwned(p string) bool {
@@ -557,5 +591,5 @@ func (s *masterSpace) Build(d []int) *Case {
 	}
 	hc := hopCfg[d[4]]
 	eol := []string{"\n", "\r\n"}[d[1]]
-	return &Case{Kind: "m3u8", URL: docURL, CType: m3uCTypes[d[2]], Body: strings.Join(l, eol) + eol, Hops: hc[0], MaxHops: hc[1], Planted: planted, Direct: d[5] == 0}
+	return &Case{Kind: "m3u8", URL: docURL, CType: m3uCTypes[d[2]], Body: strings.Join(l, eol) + eol, Hops: hc[0], MaxHops: hc[1], DC: hc[2] == 1, Planted: planted, Direct: d[5] == 0}
 }
